@@ -887,7 +887,7 @@ func TestVerifCfg(t *testing.T) {
 			}
 		}
 		out.Case(id, "for", cCtor("CFor", cNi(id), vSnapCoq(s), res), map[string]any{"snap": s, "accepted": err == nil})
-		if s.Directed == "" { // the whole Config on the random snapshots: Model/CfgFull.v full_for
+		if s.Directed == "" && (id%4 < 2 || vThorough()) { // the whole Config on half of the random snapshots: Model/CfgFull.v full_for
 			id++
 			resF := cNone
 			if err == nil {
